@@ -33,6 +33,7 @@ namespace {
       else { volatile auto c = sizeof r; (void)c; }
    }
    struct Sweep {
+      void generative() { }
       int accessors = 0;
       template<class F> void attempt(F f) { ++accessors; vp_assert(vp_outcome(f) != 2, 1); }      // valid result or an exception derived from std::logic_error
 #define VP_PROBE(name) if constexpr (requires { n.name(); }) attempt([&] { touch(n.name()); });
